@@ -1,6 +1,7 @@
 import TsVerif.Common.IO
 import TsVerif.Common.Tree
 import TsVerif.C11.Judge
+import TsVerif.C11.Heap
 /-!
 Driver for C11: reads the case stream written by `harness/src/bin/c11.rs` (streams of matches and
 captures the real cursor produced under different settings + `chk` lines), decides every `chk`
@@ -22,6 +23,14 @@ structure St where
   curC : Array CapEv := #[]
   inStream : Bool := false
   nchk : Nat := 0
+  -- unit level (cunit_c11): model heap / pool and the line the model expects from the C side
+  heap : Array FS := #[]
+  heapSize : Nat := 0
+  nextOrder : Nat := 0
+  pool : Pool := Pool.new
+  expect : String := ""
+  uid : Nat := 0
+  heapOk : Bool := true
 
 def mkRange (v : List Nat) : TSRange :=
   match v with
@@ -146,7 +155,55 @@ def runChk (s : St) (ws : List String) : String :=
     s!"{head} clause=f judge={verdict ok why} corr={corr} n1={x.length} n2={y.length} npred={s.preds.length}"
   | _ => s!"{head} clause=? judge=FAIL badchk corr=-"
 
+
+def heapLine (a : Array FS) (hs : Nat) : String :=
+  a.foldl (fun acc x => acc ++ s!" {x.order}:{x.consumed}") s!"h {hs} {a.size}"
+
+def poolLine (res : Int) (p : Pool) : String :=
+  p.inUse.foldl (fun acc b => acc ++ (if b then " 1" else " 0")) s!"p {res} {p.inUse.length} {p.free}"
+
+/-- Apply one script operation of `cunit_c11.c` to the model; returns the new state with the line
+the C side must print. -/
+def unitOp (s : St) (ws : List String) : St :=
+  let fin (a : Array FS) (hs : Nat) (s : St) : St :=
+    { s with heap := a, heapSize := hs, expect := heapLine a hs, heapOk := isHeapB a hs }
+  let hz := heapify (s.heap.size + 1) s.heap s.heapSize
+  match ws with
+  | ["hnew"] => fin #[] 0 { s with nextOrder := 0 }
+  | "hpush" :: pat :: _n :: bytes =>
+    let x : FS := { order := s.nextOrder, pat := natOf pat, caps := bytes.map natOf, consumed := 0 }
+    fin (s.heap.push x) s.heapSize { s with nextOrder := s.nextOrder + 1 }
+  | ["hheapify"] => fin hz.1 hz.2 s
+  | ["hpop"] => let a := heapPop hz.1; fin a a.size s
+  | ["herase", i] => let a := heapErase hz.1 (natOf i); fin a a.size s
+  | ["hconsume"] =>
+    let a := hz.1
+    if a.size > 0 then
+      let x := a[0]!
+      let a := siftDown a.size (a.set! 0 { x with consumed := x.consumed + 1 }) 0
+      fin a hz.2 s
+    else fin a hz.2 s
+  | ["pnew"] => { s with pool := Pool.new, expect := poolLine (-1) Pool.new, heapOk := true }
+  | ["pmax", k] => let p := { s.pool with max := natOf k }; { s with pool := p, expect := poolLine (-1) p, heapOk := true }
+  | ["preset"] => let p := s.pool.reset; { s with pool := p, expect := poolLine (-1) p, heapOk := true }
+  | ["pacq"] =>
+    let (p, r) := s.pool.acquire
+    { s with pool := p, expect := poolLine (match r with | some i => (i : Int) | none => -2) p, heapOk := true }
+  | ["prel", id] =>
+    let i := natOf id
+    let p := if (s.pool.inUse.getD i false) then s.pool.release i else s.pool
+    { s with pool := p, expect := poolLine (-1) p, heapOk := true }
+  | ["pempty"] => { s with expect := poolLine (if s.pool.isEmpty then 1 else 0) s.pool, heapOk := true }
+  | _ => { s with expect := "?" }
+
 def step (s : St) (line : String) : IO St := do
+  if line.startsWith "uop " then
+    return unitOp s (((line.drop 4).toString.splitOn " ").filter (· != ""))
+  if line.startsWith "uc " then
+    let c := (line.drop 3).toString
+    let corr := if c == s.expect then "ok" else s!"DIFF model:[{s.expect}] c:[{c}]"
+    IO.println s!"unit#{s.uid} clause=u judge={if s.heapOk then "ok" else "FAIL heap-property"} corr={corr}"
+    return { s with uid := s.uid + 1 }
   match line.splitOn " " with
   | ["case", id] => return { id := id }
   | ["text", h] => return { s with text := (unhexBytes h).toArray }
